@@ -66,3 +66,22 @@ Definition sep_rule (n : nat) (short_first : bool) (tie space : str) (i : nat) :
   if Nat.eqb (S (S i)) n || (Nat.eqb i 0 && short_first) then tie else space.
 Definition seps_rule (n : nat) (short_first : bool) (tie space : str) : list str :=
   map (sep_rule n short_first tie space) (seq 0 (pred n)).
+
+(* the characters of s at brace level 0 (braces themselves excluded), reading from depth d *)
+Fixpoint level0_text (s : str) (d : nat) : str :=
+  match s with
+  | [] => []
+  | c :: t =>
+    if lbrace c then level0_text t (S d)
+    else if rbrace c then level0_text t (pred d)
+    else match d with O => c :: level0_text t 0 | _ => level0_text t d end
+  end.
+
+(* the grammar of the text of a {...} part around its letters: characters that are neither
+   braces, letters nor underscores, and balanced {...} groups *)
+Definition vchar (c : char) : bool :=
+  negb (lbrace c) && negb (rbrace c) && negb (is_alpha c) && negb (N.eqb c 95).
+Inductive verb : str -> Prop :=
+| verb_nil : verb []
+| verb_char c s : vchar c = true -> verb s -> verb (c :: s)
+| verb_group body s : walk body 0 = Some 0 -> verb s -> verb (123%N :: body ++ 125%N :: s).
